@@ -4,6 +4,9 @@ import json, os
 HERE=os.path.dirname(os.path.dirname(os.path.abspath(__file__)))
 ALL=[f"C{i:02d}" for i in range(1,21)]
 CHECKS={
+ "C07":dict(cat="exploration",technique="runtime monitoring: differential lexeme-stream oracle (own RFC 8259 lexer + encoding/json + math/big) over exhaustive bounded number lexemes and seeded generated texts",
+   text="The real JSON minifier is run on every RFC 8259 number lexeme up to a length bound in three contexts (exhaustive), on seeded generated texts and on repository JSON files, with both KeepNumbers values; output must be valid for encoding/json, never longer, and token-for-token equal (strings byte-identical, numbers exactly equal as rationals).",
+   note="Trusts encoding/json.Valid, math/big and my lexer; unbounded input space is sampled.",ref="DESIGN.md §5 C07"),
  "C08":dict(cat="exploration",technique="runtime monitoring: canary redzones + math/big value oracle over an exhaustive bounded enumeration and seeded random lexemes",
    text="Every lexeme of the number grammar up to a length bound over a carry-exercising digit alphabet (exhaustive), plus seeded long/extreme lexemes, is run through the real Number and Decimal at 22 precisions under canary, panic, grammar, length and exact-value monitors. Held = no monitor fired on any observed call.",
    note="Trusts math/big and my 40-line grammar recogniser; values beyond the enumerated bound are sampled, not covered.",ref="DESIGN.md §5 C08"),
